@@ -50,10 +50,13 @@ Proof. exact out_of_range_rejected. Qed.
 Print Assumptions C08_out_of_range_rejected.
 
 (* ---------- history level ---------- *)
-From Turn Require Import Common RelayCheck RelayProps RelayTrace.
+From Turn Require Import Common RelayCheck RelayProps RelayTrace RelayTime RelayTime7 RelayTrace2.
 (* the predicate evaluated on the implementation's observed traces (chk_C08: bindings one-to-one and in range after every
    step, ChannelData numbers in range, a conflicting or out-of-range ChannelBind that is answered is answered by an error
-   and changes nothing) holds on every trace of the model *)
-Theorem C08_predicate_holds_on_every_model_trace : forall cfg ep h, chk_C08 (model_case cfg ep h) = true.
-Proof. exact chk_C08_model. Qed.
+   and changes nothing; and "repeating an existing binding refreshes it": a binding exists exactly until one channel
+   timeout after the last successful ChannelBind for it, chk_C07) holds on every trace of the model with positive
+   timeouts and a default lifetime in whole seconds *)
+Theorem C08_predicate_holds_on_every_model_trace : forall cfg ep h,
+  cfg_seconds cfg -> cfg_positive cfg -> chk_C08 (model_case cfg ep h) = true.
+Proof. exact chk_C08_full_model. Qed.
 Print Assumptions C08_predicate_holds_on_every_model_trace.
